@@ -55,6 +55,7 @@ type summary struct {
 	NextOffset   uint64             `json:"next_offset"`
 	IncSamples   []string           `json:"inconclusive_samples,omitempty"`
 	Nondet       []string           `json:"nondeterministic,omitempty"`
+	Infra        []string           `json:"infra,omitempty"`
 	Extra        map[string]float64 `json:"extra,omitempty"`
 }
 
@@ -70,6 +71,9 @@ func TestSim(t *testing.T) {
 	if err := json.Unmarshal([]byte(js), &j); err != nil {
 		fmt.Fprintf(os.Stderr, "harness: bad VERIF_JOB: %v\n", err)
 		os.Exit(2)
+	}
+	if simrt.RaceEnabled && os.Getenv("VERIF_RACE_LOG") == "" {
+		os.Exit(reexecWithRaceLog())
 	}
 	p := registry[j.Prop]
 	if p == nil {
@@ -92,6 +96,30 @@ func TestSim(t *testing.T) {
 		fmt.Fprintf(os.Stderr, "harness: unknown mode %q\n", j.Mode)
 		os.Exit(2)
 	}
+}
+
+// reexecWithRaceLog runs this binary again with the race detector configured to write every report (no
+// de-duplication, nothing fatal) to a log file the harness reads back after each run.
+func reexecWithRaceLog() int {
+	dir, err := os.MkdirTemp("", "verif-race-")
+	if err != nil {
+		fmt.Fprintf(os.Stderr, "harness: %v\n", err)
+		return 2
+	}
+	defer os.RemoveAll(dir)
+	prefix := filepath.Join(dir, "race")
+	cmd := exec.Command(os.Args[0], os.Args[1:]...)
+	cmd.Env = append(os.Environ(), "VERIF_RACE_LOG="+prefix,
+		"GORACE=log_path="+prefix+" suppress_equal_stacks=0 suppress_equal_addresses=0 history_size=6 halt_on_error=0 exitcode=0 atexit_sleep_ms=0")
+	cmd.Stdout, cmd.Stderr, cmd.Stdin = os.Stdout, os.Stderr, os.Stdin
+	if err := cmd.Run(); err != nil {
+		if ee, ok := err.(*exec.ExitError); ok {
+			return ee.ExitCode()
+		}
+		fmt.Fprintf(os.Stderr, "harness: %v\n", err)
+		return 2
+	}
+	return 0
 }
 
 func safeRun(t *testing.T, p *Property, c Case) (res Result) {
@@ -131,14 +159,27 @@ func worker(t *testing.T, p *Property, j job) {
 		}
 		switch res.Verdict {
 		case "violation":
-			v := s.Violations[res.Class]
-			if v == nil {
-				s.Violations[res.Class] = &vio{Case: c, Result: res, N: 1}
-			} else {
-				v.N++
-				if len(c.Ops) < len(v.Case.Ops) {
-					v.Case, v.Result = c, res
+			cls := res.Classes
+			if len(cls) == 0 {
+				cls = []string{res.Class}
+			}
+			for _, class := range cls {
+				rc := res
+				rc.Class, rc.Detail = class, res.detailOf(class)
+				rc.Classes, rc.Details = nil, nil
+				v := s.Violations[class]
+				if v == nil {
+					s.Violations[class] = &vio{Case: c, Result: rc, N: 1}
+				} else {
+					v.N++
+					if len(c.Ops) < len(v.Case.Ops) {
+						v.Case, v.Result = c, rc
+					}
 				}
+			}
+		case "infra":
+			if len(s.Infra) < 5 {
+				s.Infra = append(s.Infra, fmt.Sprintf("seed=%d: %s", seed, res.Detail))
 			}
 		case "inconclusive":
 			s.Inconclusive++
@@ -164,7 +205,7 @@ func worker(t *testing.T, p *Property, j job) {
 		if j.Repeat > 0 && s.Runs%j.Repeat == 0 {
 			r2 := safeRun(t, p, c)
 			s.Counters["determinism_rechecks"]++
-			if r2.Verdict != res.Verdict || r2.Class != res.Class || r2.TraceHash != res.TraceHash {
+			if r2.Verdict != res.Verdict || r2.Class != res.Class || r2.TraceHash != res.TraceHash || strings.Join(r2.Classes, ",") != strings.Join(res.Classes, ",") {
 				s.Nondet = append(s.Nondet, fmt.Sprintf("seed=%d first=%s/%s/%x second=%s/%s/%x", seed, res.Verdict, res.Class, res.TraceHash, r2.Verdict, r2.Class, r2.TraceHash))
 			}
 		}
@@ -251,6 +292,9 @@ func driver(t *testing.T, p *Property, j job) int {
 					// everything they reference): recycle the worker process often
 					wj.MaxRuns = 150
 				}
+				if simrt.RaceEnabled && wj.MaxRuns > 40 {
+					wj.MaxRuns = 40 // the race detector keeps state per goroutine ever started
+				}
 				wj.Out = filepath.Join(tmp, fmt.Sprintf("w%d-%d.json", w, round))
 				out, err := selfExec(wj, time.Duration(left+120)*time.Second)
 				b, rerr := os.ReadFile(wj.Out)
@@ -317,6 +361,7 @@ func driver(t *testing.T, p *Property, j job) int {
 				}
 				total.IncSamples = append(total.IncSamples, s.IncSamples...)
 				total.Nondet = append(total.Nondet, s.Nondet...)
+				total.Infra = append(total.Infra, s.Infra...)
 				mu.Unlock()
 			}
 		}(w)
@@ -352,6 +397,13 @@ func driver(t *testing.T, p *Property, j job) int {
 	}
 	sort.Strings(classes)
 	knownSeen := map[string]int{}
+	type verdict struct {
+		class      string
+		stdout     string
+		stderr     string
+		reproduced bool
+	}
+	var pending []string
 	for _, class := range classes {
 		v := total.Violations[class]
 		if k := isKnown(known, p.ID, class); k != nil {
@@ -360,48 +412,84 @@ func driver(t *testing.T, p *Property, j job) int {
 			continue
 		}
 		nviol++
-		// shrink in a child process, then replay the minimised case in a fresh process
-		cf := filepath.Join(tmp, "viol-"+sanitize(class)+".json")
-		cb, _ := json.Marshal(v.Case)
-		os.WriteFile(cf, cb, 0o644)
-		min := v.Case
-		if !strings.HasPrefix(class, "process_crash") {
-			sj := job{Mode: "shrink", Prop: p.ID, CaseFile: cf, Out: cf + ".min", WantClass: class, BudgetS: 45}
-			if out, err := selfExec(sj, 100*time.Second); err != nil {
-				fmt.Fprintf(os.Stderr, "harness: shrink failed (%v): %s\n", err, tailStr(string(out), 800))
-			}
-			if mb, err := os.ReadFile(cf + ".min"); err == nil {
-				var mc Case
-				if json.Unmarshal(mb, &mc) == nil {
-					min = mc
+		pending = append(pending, class)
+	}
+	// shrink each new class in a child process, then replay the minimised case in a fresh process; classes are
+	// handled concurrently (one run can show many, e.g. one per pair of racing functions)
+	verdicts := make([]verdict, len(pending))
+	sem := make(chan struct{}, max(1, j.Workers/2))
+	var vwg sync.WaitGroup
+	for i, class := range pending {
+		vwg.Add(1)
+		go func(i int, class string) {
+			defer vwg.Done()
+			sem <- struct{}{}
+			defer func() { <-sem }()
+			v := total.Violations[class]
+			vd := verdict{class: class}
+			cf := filepath.Join(tmp, fmt.Sprintf("viol-%d-%s.json", i, sanitize(class)))
+			cb, _ := json.Marshal(v.Case)
+			os.WriteFile(cf, cb, 0o644)
+			min := v.Case
+			if !strings.HasPrefix(class, "process_crash") {
+				sj := job{Mode: "shrink", Prop: p.ID, CaseFile: cf, Out: cf + ".min", WantClass: class, BudgetS: 45}
+				if out, err := selfExec(sj, 100*time.Second); err != nil && !simrt.RaceEnabled {
+					vd.stderr += fmt.Sprintf("harness: shrink failed (%v): %s\n", err, tailStr(string(out), 800))
+				}
+				if mb, err := os.ReadFile(cf + ".min"); err == nil {
+					var mc Case
+					if json.Unmarshal(mb, &mc) == nil {
+						min = mc
+					}
 				}
 			}
-		}
-		rp := filepath.Join(j.Replays, fmt.Sprintf("%s-%d-%s.json", p.ID, v.Case.Seed, sanitize(class)))
-		os.MkdirAll(j.Replays, 0o755)
-		mb, _ := json.MarshalIndent(min, "", " ")
-		os.WriteFile(rp, mb, 0o644)
-		rj := job{Mode: "run", Prop: p.ID, CaseFile: rp, Out: cf + ".replay"}
-		out, _ := selfExec(rj, 10*time.Minute)
-		reproduced := false
-		if strings.HasPrefix(class, "process_crash") {
-			_, err := os.Stat(cf + ".replay")
-			reproduced = err != nil
-		} else if rb, err := os.ReadFile(cf + ".replay"); err == nil {
-			var rr Result
-			if json.Unmarshal(rb, &rr) == nil && rr.Verdict == "violation" && rr.Class == class {
-				reproduced = true
+			rp := filepath.Join(j.Replays, fmt.Sprintf("%s-%d-%s.json", p.ID, v.Case.Seed, sanitize(class)))
+			os.MkdirAll(j.Replays, 0o755)
+			mb, _ := json.MarshalIndent(min, "", " ")
+			os.WriteFile(rp, mb, 0o644)
+			rj := job{Mode: "run", Prop: p.ID, CaseFile: rp, Out: cf + ".replay"}
+			attempts := 1
+			if simrt.RaceEnabled {
+				// the schedule replays exactly, but the race detector keeps a bounded, randomly evicted access
+				// history per memory cell: a report can need more than one execution of the same schedule
+				attempts = 4
 			}
-		}
-		if reproduced {
-			fmt.Printf("VIOLATION property=%s replay=%s\n", p.ID, rp)
-			fmt.Printf("  class=%s seen_in_runs=%d\n  detail=%s\n", class, v.N, oneLine(v.Result.Detail, 600))
+			var out []byte
+			for a := 0; a < attempts && !vd.reproduced; a++ {
+				os.Remove(cf + ".replay")
+				out, _ = selfExec(rj, 10*time.Minute)
+				if strings.HasPrefix(class, "process_crash") {
+					_, err := os.Stat(cf + ".replay")
+					vd.reproduced = err != nil
+				} else if rb, err := os.ReadFile(cf + ".replay"); err == nil {
+					var rr Result
+					if json.Unmarshal(rb, &rr) == nil && rr.hasClass(class) {
+						vd.reproduced = true
+					}
+				}
+			}
+			if vd.reproduced {
+				vd.stdout = fmt.Sprintf("VIOLATION property=%s replay=%s\n  class=%s seen_in_runs=%d\n  detail=%s\n", p.ID, rp, class, v.N, oneLine(v.Result.Detail, 600))
+			} else {
+				vd.stderr += fmt.Sprintf("harness: violation class %s did not reproduce from its own replay file %s (determinism hole in the machinery)\n%s\n", class, rp, tailStr(string(out), 800))
+			}
+			verdicts[i] = vd
+		}(i, class)
+	}
+	vwg.Wait()
+	for _, vd := range verdicts {
+		fmt.Fprint(os.Stderr, vd.stderr)
+		fmt.Print(vd.stdout)
+		if vd.reproduced {
 			exit = 1
-		} else {
-			fmt.Fprintf(os.Stderr, "harness: violation class %s did not reproduce from its own replay file %s (determinism hole in the machinery)\n%s\n", class, rp, tailStr(string(out), 800))
-			if exit == 0 {
-				exit = 2
-			}
+		} else if exit == 0 {
+			exit = 2
+		}
+	}
+	if len(total.Infra) > 0 {
+		fmt.Fprintf(os.Stderr, "harness: %d runs reported trouble of the machinery itself, e.g. %s\n", len(total.Infra), total.Infra[0])
+		if exit == 0 {
+			exit = 2
 		}
 	}
 	if len(total.Nondet) > 0 {
@@ -478,6 +566,9 @@ func loadCase(path string) Case {
 func runOne(t *testing.T, p *Property, j job) int {
 	c := loadCase(j.CaseFile)
 	res := safeRun(t, p, c)
+	for a := 0; simrt.RaceEnabled && j.Out == "" && res.Verdict == "ok" && a < 3; a++ {
+		res = safeRun(t, p, c) // see the driver: a race report can need more than one execution of the same schedule
+	}
 	b, _ := json.MarshalIndent(res, "", " ")
 	if j.Out != "" {
 		os.WriteFile(j.Out, b, 0o644)
@@ -487,6 +578,9 @@ func runOne(t *testing.T, p *Property, j job) int {
 	if res.Verdict == "violation" {
 		fmt.Printf("VIOLATION property=%s replay=%s\n", p.ID, j.CaseFile)
 		return 1
+	}
+	if res.Verdict == "infra" {
+		return 2
 	}
 	return 0
 }
@@ -504,7 +598,7 @@ func shrinkJob(t *testing.T, p *Property, j job) {
 		}
 		tries++
 		r := safeRun(t, p, x)
-		return r.Verdict == "violation" && r.Class == j.WantClass, r
+		return r.hasClass(j.WantClass), r
 	}
 	ok, res := fails(c)
 	if !ok {
